@@ -50,9 +50,27 @@ def save_paths(ctx, cls):
         ctor_calls.append((call, prefix))
         if call.args:
             raise AnalysisError(f"{cls.name}.solver_state: positional constructor arguments")
+        kws_ = []
         for kw in call.keywords:
             if kw.arg is None:
-                raise AnalysisError(f"{cls.name}.solver_state: **kwargs in constructor")
+                # `**self._hook()` where the hook, resolved for THIS class, returns a dict display with string keys: those are the keywords
+                hv = kw.value
+                exp = None
+                if isinstance(hv, ast.Call) and not hv.args and not hv.keywords and isinstance(hv.func, ast.Attribute) \
+                        and isinstance(hv.func.value, ast.Name) and hv.func.value.id == "self":
+                    r_ = ctx.ct.lookup(cls, hv.func.attr)
+                    if r_:
+                        body_ = [b for b in r_[1].body if not (isinstance(b, ast.Expr) and isinstance(b.value, ast.Constant))]
+                        if len(body_) == 1 and isinstance(body_[0], ast.Return) and isinstance(body_[0].value, ast.Dict) \
+                                and all(isinstance(k_, ast.Constant) and isinstance(k_.value, str) for k_ in body_[0].value.keys):
+                            exp = [ast.keyword(arg=k_.value, value=v_) for k_, v_ in zip(body_[0].value.keys, body_[0].value.values)]
+                if exp is None:
+                    raise AnalysisError(f"{cls.name}.solver_state: **kwargs in constructor")
+                kws_.extend(exp)
+            else:
+                kws_.append(kw)
+        call.keywords = kws_  # (this class's own copy of solver_state: the hook's entries are its keywords)
+        for kw in kws_:
             v = kw.value
             if isinstance(v, ast.Name):  # a sub-record built in a local first
                 ds = [s_ for s_ in ast.walk(fn) if isinstance(s_, ast.Assign) and len(s_.targets) == 1
@@ -98,7 +116,7 @@ def _restore_paths_of(ctx, cls, owner, fn):
         return None
 
     for s in fn.body:
-        if isinstance(s, ast.Expr) and isinstance(s.value, ast.Constant):
+        if isinstance(s, ast.Expr) and isinstance(s.value, ast.Constant) or isinstance(s, ast.Pass):
             continue
         if isinstance(s, ast.Assign) and len(s.targets) == 1 and isinstance(s.targets[0], ast.Name) and path_of(s.value) is not None \
                 and s.targets[0].id != p:
@@ -116,6 +134,19 @@ def _restore_paths_of(ctx, cls, owner, fn):
                     out.setdefault(k_, v_)
                 other.extend(_other)
                 continue
+        # self._hook(<param path>): a restore hook resolved for THIS class, whose parameter stands for that path
+        if isinstance(s, ast.Expr) and isinstance(s.value, ast.Call) and isinstance(s.value.func, ast.Attribute) and isinstance(s.value.func.value, ast.Name) \
+                and s.value.func.value.id == "self" and len(s.value.args) == 1 and not s.value.keywords and path_of(s.value.args[0]) is not None:
+            hk = ctx.ct.lookup(cls, s.value.func.attr)
+            if hk is not None:
+                hparams = [a_.arg for a_ in hk[1].args.args if a_.arg != "self"]
+                if len(hparams) == 1:
+                    base_ = path_of(s.value.args[0])
+                    _o, _f, sub, sub_other = _restore_paths_of(ctx, cls, hk[0], hk[1])
+                    for k_, v_ in sub.items():
+                        out.setdefault(k_, base_ + v_)
+                    other.extend(sub_other)
+                    continue
         if isinstance(s, ast.Assign) and len(s.targets) == 1 and is_self_attr(s.targets[0]):
             path = []
             v = s.value
@@ -129,6 +160,33 @@ def _restore_paths_of(ctx, cls, owner, fn):
                 continue
         other.append(s)
     return owner, fn, out, other
+
+
+def _single_slot_cache(ctx, cls, a) -> bool:
+    """every write of self.<a> outside constructor-only code is `self.a = v` as the last statement of `if v is None [or ..]:` where `v = self.a` precedes"""
+    writes = []
+    for k in ctx.ct.mro(cls):
+        for name, fn in k.methods.items():
+            for st in ast.walk(fn):
+                for blk in (getattr(st, "body", None), getattr(st, "orelse", None)):
+                    if not isinstance(blk, list):
+                        continue
+                    for i, s_ in enumerate(blk):
+                        if isinstance(s_, ast.Assign) and len(s_.targets) == 1 and is_self_attr(s_.targets[0], a):
+                            writes.append((st, blk, i, s_))
+    late = [w for w in writes if not (isinstance(w[3].value, ast.Constant) and w[3].value.value is None)]
+    if not late or len(late) == len(writes):
+        return False  # never reset to None in a set-up method, or never filled
+    for st, blk, i, s_ in late:
+        if not (isinstance(st, ast.If) and blk is st.body and i == len(blk) - 1 and isinstance(s_.value, ast.Name)):
+            return False
+        v = s_.value.id
+        t = st.test
+        first = t.values[0] if isinstance(t, ast.BoolOp) and isinstance(t.op, ast.Or) else t
+        if not (isinstance(first, ast.Compare) and isinstance(first.left, ast.Name) and first.left.id == v and len(first.ops) == 1
+                and isinstance(first.ops[0], ast.Is) and isinstance(first.comparators[0], ast.Constant) and first.comparators[0].value is None):
+            return False
+    return True
 
 
 def run(ctx: Context, col) -> None:
@@ -162,6 +220,10 @@ def run(ctx: Context, col) -> None:
             if ex is None and not (in_s and in_r) and a not in relevant:
                 ex = "carried between sweeps but never flows into values, policy, the counter, a stopping test or a save (bookkeeping only)"
             ok = (in_s and in_r) or ex is not None
+            if not ok and not in_s and not in_r and _single_slot_cache(ctx, cls, a):
+                raise AnalysisError(f"{cls.name}.{a} is carried between sweeps, not checkpointed, and every write of it is the single-slot cache idiom "
+                                    f"(`v = self.{a}; if v is None or <stale>: v = <compute>; self.{a} = v`): it is state only if the computation can change, "
+                                    "which this rule cannot tell; R9.1 cannot be decided")
             col.add("R9.1", f"{cls.name}.{a}", loop.file, loop.header.lineno, ok,
                     (f"loop-carried `{a}` is saved at {'.'.join(spaths[a])} and restored" if in_s and in_r else
                      f"exempt: {ex}" if ex else
